@@ -105,7 +105,7 @@ CHECKS = {
                             "a backend 'failure' is a negative / NULL return of the operation-table entry (injected by the tap), plus the failures the back ends report themselves: init for 11 refused configurations (unsupported flat-XOR shapes, null / isa-l word sizes) and flat-XOR decode / reconstruct for every erasure set of hd and hd+1 fragments of 5 | 7 shapes; failures inside the plug-in's primitives (matrix inversion) are C19's subject",
                             "allocation failure is not injected"]},
     "C18": {"runs": [
-                     {"name": "tsan", "plan": "tsan", "srcs": T_SRCS, "san": "tsan", "hooks": True, "nosan": ("vsched.c",), "opts": {"quick": {"bound": 1, "drivers": 7, "bound3": 1}, "thorough": {"bound": 2, "drvmask": 0x403ff, "bound3": 1}}},
+                     {"name": "tsan", "plan": "tsan", "srcs": T_SRCS, "san": "tsan", "hooks": True, "nosan": ("vsched.c",), "weight": 2, "opts": {"quick": {"bound": 1, "drivers": 7, "bound3": 1}, "thorough": {"bound": 2, "drvmask": 0x403ff, "bound3": 1}}},
                      # data plane only, on instances created before the threads start: the threads take read locks only, so nothing orders them for TSan
                      # one preemption in both tiers: TSan reports a data-plane race in every schedule anyway, and two preemptions over the
                      # ~330 scheduling points of these workloads cost 10^5 executions per driver
@@ -113,7 +113,7 @@ CHECKS = {
                      {"name": "asan-data", "plan": "asan", "srcs": T_SRCS, "san": "asan", "hooks": True, "nosan": ("vsched.c",), "opts": {"quick": {"bound": 1, "drvmask": 0x3fc00}, "thorough": {"bound": 1, "drvmask": 0x3fc00}}},
                      # bound 3 on the life-cycle drivers is the most expensive run: last, with the largest share of whatever time is left
                      {"name": "asan", "plan": "asan", "srcs": T_SRCS, "san": "asan", "hooks": True, "nosan": ("vsched.c",), "weight": 4, "opts": {"quick": {"bound": 2, "drivers": 7, "bound3": 1}, "thorough": {"bound": 3, "drvmask": 0x403ff, "bound3": 2}}}],
-            "level": "model_checking", "deadline": {"quick": 200, "thorough": 2400},
+            "level": "model_checking", "deadline": {"quick": 200, "thorough": 3000},
             "rule": ("stateless depth-first enumeration of all interleavings of 2-3 real threads under a serialising scheduler: scheduling points are the guarded yield hooks in the "
                      "registry and GF-table code and every rwlock/mutex operation (modelled, so a thread asking for a held lock is disabled); iterative preemption bounding; each "
                      "schedule is one execution of the real library in a forked child, once under AddressSanitizer and once under ThreadSanitizer (the scheduler's futex hand-offs are "
